@@ -3,6 +3,7 @@ package main
 import (
 	"go/token"
 	"go/types"
+	"strings"
 
 	"golang.org/x/tools/go/ssa"
 )
@@ -26,28 +27,28 @@ type c09Class struct {
 }
 
 var c09Census = map[string]c09Class{
-	"bytecode.goByteCode|go bytecode.GoRoutine":             {"user", "the Ego program's own go statement; excluded by the property"},
-	"bytecode.Context.RunFromAddress|go closure":            {"per-execution:W1", "signal watcher of one run"},
-	"rest.Exchange|go closure":                              {"per-execution:W1", "progress message while a REST call is in flight"},
-	"services.runChildViaPipe|go closure":                   {"per-execution:W2", "socket exchange with the child of one request"},
-	"services.runChildProcess|go closure":                   {"per-execution:W2", "cmd.Wait of one child process"},
-	"debugger.Resume|go closure":                            {"per-execution:W2", "runs one debugged program; reports on a buffered channel"},
-	"oauth.Initialize|go closure":                           {"once:Do", "OAuth state purger"},
-	"router.startRateLimitScan|go closure":                  {"once:Do", "login-attempt pruning"},
-	"ui.OpenLogFile|go ui.rollOverTask":                     {"once:Do", "log roll-over"},
-	"tables.BeginHandler|go closure":                        {"once:flag", "expired-transaction cleanup, started behind transactionsCleanupStarted under transactionsLock"},
-	"caches.newCache|go caches.expire":                      {"once:flag", "one sweeper per cache class, behind expirationThreadRunning[id]"},
-	"auth.Initialize|go auth.ageCredentials":                {"startup", "started by the server's one-time authentication set-up"},
-	"commands.RunServer|go router.LogMemoryStatistics":      {"startup", "server start"},
-	"commands.RunServer|go router.LogRequestCounts":         {"startup", "server start"},
-	"commands.RunServer|go cluster.StartHealthChecker":      {"startup", "server start"},
-	"commands.RunServer|go closure":                         {"startup", "server start: signal handling for shutdown"},
+	"bytecode.goByteCode|go bytecode.GoRoutine":              {"user", "the Ego program's own go statement; excluded by the property"},
+	"bytecode.Context.RunFromAddress|go closure":             {"per-execution:W1", "signal watcher of one run"},
+	"rest.Exchange|go closure":                               {"per-execution:W1", "progress message while a REST call is in flight"},
+	"services.runChildViaPipe|go closure":                    {"per-execution:W2", "socket exchange with the child of one request"},
+	"services.runChildProcess|go closure":                    {"per-execution:W2", "cmd.Wait of one child process"},
+	"debugger.Resume|go closure":                             {"per-execution:W2", "runs one debugged program; reports on a buffered channel"},
+	"oauth.Initialize|go closure":                            {"once:Do", "OAuth state purger"},
+	"router.startRateLimitScan|go closure":                   {"once:Do", "login-attempt pruning"},
+	"ui.OpenLogFile|go ui.rollOverTask":                      {"once:Do", "log roll-over"},
+	"tables.BeginHandler|go closure":                         {"once:flag", "expired-transaction cleanup, started behind transactionsCleanupStarted under transactionsLock"},
+	"caches.newCache|go caches.expire":                       {"once:flag", "one sweeper per cache class, behind expirationThreadRunning[id]"},
+	"auth.Initialize|go auth.ageCredentials":                 {"startup", "started by the server's one-time authentication set-up"},
+	"commands.RunServer|go router.LogMemoryStatistics":       {"startup", "server start"},
+	"commands.RunServer|go router.LogRequestCounts":          {"startup", "server start"},
+	"commands.RunServer|go cluster.StartHealthChecker":       {"startup", "server start"},
+	"commands.RunServer|go closure":                          {"startup", "server start: signal handling for shutdown"},
 	"commands.startSecureServer|go commands.redirectToHTTPS": {"startup", "server start: HTTP to HTTPS redirector"},
-	"router.RequestShutdown|go closure":                     {"task", "server shutdown in progress; ends the process"},
-	"caches.purge|go value":                                 {"task", "OnPurge broadcast of one purge; bounded by BroadcastCacheFlush's loop over peers (C29)"},
-	"app.TimeoutAction|go closure":                       {"cli", "command-line --timeout: exits the process"},
-	"app.startCallbackServer|go closure":                           {"cli", "interactive OAuth logon of the command line client"},
-	"app.startCallbackServer|go closure#2":                           {"cli", "interactive OAuth logon of the command line client"},
+	"router.RequestShutdown|go closure":                      {"task", "server shutdown in progress; ends the process"},
+	"caches.purge|go value":                                  {"task", "OnPurge broadcast of one purge; bounded by BroadcastCacheFlush's loop over peers (C29)"},
+	"app.TimeoutAction|go closure":                           {"cli", "command-line --timeout: exits the process"},
+	"app.startCallbackServer|go closure":                     {"cli", "interactive OAuth logon of the command line client"},
+	"app.startCallbackServer|go closure#2":                   {"cli", "interactive OAuth logon of the command line client"},
 }
 
 func runC09(w *World, r *Report) {
@@ -55,6 +56,7 @@ func runC09(w *World, r *Report) {
 	r.Rule("R-C09-2", "per-execution goroutines have a termination witness (W1 deferred close of the done channel on every exit after the go statement; W2 single send on a buffered channel made by the spawner)", 5)
 	r.Rule("R-C09-3", "once-only goroutines start inside sync.Once.Do or behind a test-and-set of a package-level flag", 5)
 	r.Rule("R-C09-4", "dispatchTable is indexed only by Context.RunFromAddress", 1)
+	r.Rule("R-C09-5", "a per-execution goroutine that is handed a listener its spawner opened (net.Listen) is always released: the spawner closes the listener on every path from the go statement to a return, or deferred the close before the go statement — a goroutine blocked in Accept has no other way out", 1)
 
 	type goSite struct {
 		fn  *ssa.Function
@@ -121,6 +123,10 @@ func runC09(w *World, r *Report) {
 		}
 
 		r.Discharge("R-C09-1", s.key, w.pos(s.g.Pos()), cl.class+": "+cl.comment)
+
+		if strings.HasPrefix(cl.class, "per-execution") {
+			c09ListenerReleased(w, r, s.fn, s.g, s.key)
+		}
 
 		switch cl.class {
 		case "per-execution:W1":
